@@ -180,7 +180,7 @@ pub fn struct_cast_fixed(rng: &mut Rng, fixed: Option<(&'static str, bool, u32, 
 /// an operand with an effect in a position the exporter emits once today
 pub const STATEMENTS: u64 = 24;
 const INT_OPS: [&str; 10] = ["+=", "-=", "*=", "/=", "%=", "&=", "|=", "^=", "<<=", ">>="];
-const FLOAT_OPS: [&str; 4] = ["+=", "-=", "*=", "/="];
+const FLOAT_OPS: [&str; 5] = ["+=", "-=", "*=", "/=", "%="];
 /// the statements that contain a compound assignment
 const COMPOUND: [u64; 5] = [5, 6, 7, 9, 22];
 
